@@ -1,6 +1,7 @@
 package simrt
 
 import (
+	"io"
 	"crypto/sha256"
 	"encoding/hex"
 	"fmt"
@@ -906,4 +907,27 @@ func (s *Sim) Adopt(name string) {
 		s.tasks[id] = &Task{Name: name, sim: s}
 	}
 	s.mu.Unlock()
+}
+
+// YieldReader wraps the body reader handed to Session.Data/LMTPData: after
+// every Read the goroutine yields. With BDAT the reader is an io.Pipe fed by
+// the connection's goroutine; a Read that was blocked there is woken by the
+// writer (or by Conn.Close) and would otherwise run side by side with the
+// task that woke it until its next simulation point.
+func YieldReader(r io.Reader, site string) io.Reader {
+	if Cur() == nil {
+		return r
+	}
+	return yieldReader{r, site}
+}
+
+type yieldReader struct {
+	r    io.Reader
+	site string
+}
+
+func (y yieldReader) Read(p []byte) (int, error) {
+	n, err := y.r.Read(p)
+	Yield(y.site)
+	return n, err
 }
